@@ -302,6 +302,16 @@ def projects(draw, size_bias=None, max_tags=10, long_names=False):
             styp = draw(st.sampled_from([0x00C4, 0x10C4, 0x1069]))
         extras.append({"name": name, "scope": scope, "instance": inst, "symbol_type": styp,
                        "sc": draw(st.sampled_from([0, 0x04000000]))})
+    if programs and draw(st.integers(0, 5)) == 0:
+        # a program copied and pasted: a second program with the very same symbol table (names AND instance ids - ids are only unique
+        # within a scope)
+        src = draw(st.sampled_from(programs))
+        cname = (src["name"][:34] + "_copy")
+        if cname.lower() not in {p_["name"].lower() for p_ in programs} and any(t["scope"] == src["name"] for t in tags):
+            ci = draw(new_instance(None))
+            inst_used[None].add(ci)
+            programs.append({"name": cname, "instance": ci, "routines": [dict(r) for r in src["routines"]]})
+            tags += [dict(t, scope=cname) for t in tags if t["scope"] == src["name"]]
     return {"udts": udts, "tags": tags, "programs": programs, "extras": extras}
 
 
